@@ -409,6 +409,7 @@ R.contract(
         "forall(lambda k: implies(0 <= k < len(HL(self)), sel(HL(self), k).sequence_number == old(sel(HL(self), k).sequence_number)))",
     ],
     prop=["C18"],
+    frame=True,  # OPAQUE_CALL discharge: see contracts/quic_handlers.py
 )
 
 # RETIRE_CONNECTION_ID frame acknowledged or lost: a lost retirement is queued again (once, at the end), an
@@ -426,6 +427,7 @@ R.contract(
         "peer_cfg_same(self)",
     ],
     prop=["C18"],
+    frame=True,  # OPAQUE_CALL discharge: see contracts/quic_handlers.py
 )
 
 # ================================================================================================ writing RETIRE_CONNECTION_ID
